@@ -143,7 +143,11 @@ func c10(c *Ctx) {
 	c10deadline(c, t)
 }
 
-func c10invalid(c *Ctx, t *transport) { c10invalidAs(c, t, "C10.invalid-clean") }
+func c10invalid(c *Ctx, t *transport) {
+	c10invalidAs(c, t, "C10.invalid-clean")
+	// a refused request must also not leave its buffered bytes behind in a writer that is still installed
+	newWriterA(c).allExits("C10.invalid-clean")
+}
 
 func c10invalidAs(c *Ctx, t *transport, rule string) {
 	r := c.R
